@@ -17,6 +17,7 @@ RULES = {
     "C10.R14": "what was saved is what is loaded: nothing reachable from _load_from_state_dict writes the activation-scale buffers (the base class copies the saved values into them; a reset or a normalisation there replaces a calibrated scale)",
     "C10.R13": "a sub-byte weight rebuilt on load reports the geometry that was saved: no QBits constructor / factory call takes size or stride from the (grouped) payload (rule C06.R10 re-checked)",
     "C10.R12": "the activation-scale buffers of every target have the dtype and device of the module, whatever the configuration it was quantized with: load_state_dict copies the saved scales into them (rule C08.R9 re-checked)",
+    "C10.R15": "(= C06.R12) the payload / scale fields of an existing quantized tensor are written in place, never rebound: what the state_dict saves for a frozen weight (and what calibration adopts from an activation) keeps the contiguity, ownership and dtype it was created with",
     "C10.R11": "state_dict tensors are the module's own: from_module copies weight and bias into the (contiguous, unshared) parameters the constructor allocated (C08.R4 re-checked), and every value written to the input_scale / output_scale buffers is a freshly computed tensor - never a reference to, or a view of, a tensor another object owns (safetensors refuses shared or non-contiguous tensors)",
     "C10.R6": "derived state: attributes that __init__ derives from weight_qtype are re-derived wherever weight_qtype is reassigned",
     "C10.R7": "requantize coverage: a kwarg that gates the creation of a registered module class is derived from the state_dict when re-quantizing",
@@ -807,6 +808,9 @@ def owned_tensors(chk):
         # a reloaded sub-byte weight is rebuilt (optimize()): the geometry it reports - and writes into the next state_dict - is the tensor's
         from . import c06
         c06.qbits_geometry(AliasedCheck(chk, {"C06.R10": "C10.R13"}), "C06.R10")
+        # the inner tensors of a frozen weight ARE state_dict entries: rebinding one to another tensor can make it non-contiguous, shared or of
+        # another dtype than the one a freshly quantized target gives it
+        c06.field_rebinding_rule(AliasedCheck(chk, {"C06.R12": "C10.R15"}), "C06.R12")
     names = ("input_scale", "output_scale")
     n = 0
     for mi in repo.modules.values():
